@@ -7,6 +7,7 @@
 import NPModel.State.Kinds
 import NPModel.Refine.SoundFrames
 import NPModel.Refine.CleanFilter
+import NPModel.Refine.CleanFields
 import NPModel.Refine.SamplesFrame
 namespace NP.C18
 open NP.State
@@ -161,6 +162,30 @@ open NP in
 theorem all_chains_stay_sound (ops : List AnyOp) (F : NFrame Cell) (h : F.Sound) (F' : NFrame Cell)
     (hok : runAnyChain F ops = .ok F') : F'.Sound :=
   runAnyChain_sound ops F h F' hok
+
+open NP in
+/-- **Field edits keep storage clean**: `set_flat_field` (behind `with_flat_field`, `.nest[f] = v`,
+    `frame['n.f'] = v`, eval assignment) with an array or one value for all records, and
+    `fill_field_lists` (one value per row), return clean storage of the same length whenever they
+    succeed — the flat values are cut by the rows' record counts, so nothing ends up under a missing
+    row; `set_list_field` does so for list arrays without null lists that hold nothing under the
+    column's missing rows. -/
+theorem field_edits_keep_storage_clean {α : Type} (c : PCol α) (hc : c.Clean) (hch : c.chunks ≠ []) (f ty : String)
+    (keep : Bool) (c' : PCol α) :
+    (∀ v : FlatVal α, NArr.setFlatField c f ty v keep = .ok c' → c'.Clean ∧ c'.chunks ≠ [] ∧ c'.len = c.len) ∧
+    (∀ vs : List α, NArr.fillFieldLists c f ty vs keep = .ok c' → c'.Clean ∧ c'.chunks ≠ [] ∧ c'.len = c.len) ∧
+    (∀ value : PList α, value.WF = true → (∀ v ∈ value.valid, v = true) → HiddenFree value c.rows 0 →
+      NArr.setListField c f ty value keep = .ok c' → c'.Clean ∧ c'.chunks ≠ [] ∧ c'.len = c.len) :=
+  ⟨fun v h => setFlatField_clean' c hc hch f ty v keep c' h, fun vs h => fillFieldLists_clean c hc hch f ty vs keep c' h,
+   fun value hw hv hh h => setListField_clean c hc hch f ty value keep c' hw hv hh h⟩
+
+open NP in
+/-- **Chains of EVERY frame operation of the model** — nested and base-layer queries, dropnas,
+    sorts, joins of every kind, `frame['nest.field'] = values` (existing or new nest) and eval
+    assignment — of any length, stay sound: only success of each step is assumed. -/
+theorem every_chain_stays_sound (ops : List AllOp) (F : NFrame Cell) (h : F.Sound) (F' : NFrame Cell)
+    (hok : runAllChain F ops = .ok F') : F'.Sound :=
+  runAllChain_sound ops F h F' hok
 
 open NP in
 /-- non-vacuity: the sample frame (a nested column in two chunks, the first a slice into a larger
